@@ -245,7 +245,7 @@ def check_C15(tier, seed):
                      'reseed oracle counts caller-visible bytes only and never flags extra or earlier draws',
                      'a getrandom() request of <= 256 bytes is never split (Linux guarantee the code relies on)']
     n = 24000 if tier == 'quick' else 600000
-    cfgs = [('asm', (4, 2, 4))] if tier == 'quick' else [('asm', (4, 2, 4)), ('c64', (4, 2, 4)), ('c32', (4, 2, 4)), ('dxor', (4, 2, 4))]
+    cfgs = [('asm', (4, 2, 4)), ('c64', (4, 2, 4)), ('c32', (4, 2, 4)), ('dxor', (4, 2, 4)), ('gen', (4, 2, 4))]
     for i, (be, sh) in enumerate(cfgs):
         exe = world_exe('prng', be, sh, 'rel')
         o.add(D.run_batch(exe, n if i == 0 else n // 6, tier, seed, label='prng@%s' % be, crash_prop='C12'))
@@ -304,9 +304,10 @@ def check_C10(tier, seed):
                      '"changes every share" is judged only on the random tape and only when the words drawn during the call are pairwise distinct and non-zero',
                      'replace() is generated with sizes 0..7, store_partial/load_partial with 1..7 (documented ranges)']
     if tier == 'quick':
-        cfgs = [('asm', (4, 2, 4), 30000), ('c64', (3, 3, 3), 12000), ('c32', (2, 1, 2), 12000), ('c64', (4, 4, 4), 8000), ('c32', (4, 3, 4), 8000)]
+        cfgs = [('asm', (4, 2, 4), 30000), ('c64', (3, 3, 3), 12000), ('c32', (2, 1, 2), 12000), ('c64', (4, 4, 4), 8000), ('c32', (4, 3, 4), 8000),
+                ('asm', (3, 3, 3), 8000), ('dxor', (4, 2, 4), 6000), ('gen', (3, 1, 3), 6000), ('asm', (4, 1, 4), 6000), ('c64', (2, 2, 2), 6000), ('c32', (4, 4, 4), 6000)]
     else:
-        cfgs = [(be, sh, 40000) for be in ('asm', 'c64', 'c32') for sh in B.ALL_SHARES]
+        cfgs = [(be, sh, 40000) for be in ('asm', 'c64', 'c32') for sh in B.ALL_SHARES] + [('dxor', (4, 2, 4), 40000), ('dxor', (3, 3, 3), 40000), ('gen', (3, 1, 3), 40000), ('gen', (4, 4, 4), 40000)]
     for be, sh, n in cfgs:
         exe = world_exe('masked', be, sh, 'rel')
         o.add(D.run_batch(exe, n, tier, seed, label='masked@%s-%d%d%d' % (be, *sh), crash_prop='C12'))
@@ -324,7 +325,7 @@ def check_C06(tier, seed):
                      'for SIV the keystream pass follows the property anchor and the KAT files (permute-then-squeeze); doc/siv.dox prose differs and is not used',
                      'the "equals the specification" clauses are model-based sampling of inputs; the history part (packets on one key, save/load/restart) is the simulation target']
     n = 30000 if tier == 'quick' else 600000
-    cfgs = [('asm', (4, 2, 4))] if tier == 'quick' else [('asm', (4, 2, 4)), ('c64', (4, 2, 4)), ('c32', (4, 2, 4)), ('dxor', (4, 2, 4)), ('gen', (4, 2, 4))]
+    cfgs = [('asm', (4, 2, 4)), ('c64', (4, 2, 4)), ('c32', (4, 2, 4)), ('dxor', (4, 2, 4)), ('gen', (4, 2, 4))]
     for i, (be, sh) in enumerate(cfgs):
         exe = world_exe('keystore', be, sh, 'rel')
         o.add(D.run_batch(exe, n if i == 0 else n // 6, tier, seed, label='keystore@%s' % be, crash_prop='C12'))
@@ -386,7 +387,8 @@ def check_C17(tier, seed):
         return 1
     o.extra['compile_obligation'] = 'asim/worlds/cppobj.cpp compiled: every public member and overload of the C++ classes is instantiated there'
     n = 40000 if tier == 'quick' else 800000
-    cfgs = [('asm', (4, 2, 4))] if tier == 'quick' else [('asm', (4, 2, 4)), ('c64', (3, 2, 3)), ('c32', (2, 2, 2)), ('gen', (4, 4, 4))]
+    cfgs = [('asm', (4, 2, 4)), ('c64', (4, 2, 4)), ('c32', (4, 2, 4)), ('dxor', (4, 2, 4)), ('gen', (4, 2, 4))] if tier == 'quick' else \
+           [('asm', (4, 2, 4)), ('c64', (4, 2, 4)), ('c32', (4, 2, 4)), ('dxor', (4, 2, 4)), ('gen', (4, 2, 4)), ('c64', (3, 2, 3)), ('c32', (2, 2, 2)), ('gen', (4, 4, 4))]
     for i, (be, sh) in enumerate(cfgs):
         exe = world_exe('cppobj', be, sh, 'rel')
         o.add(D.run_batch(exe, n if i == 0 else n // 5, tier, seed, label='cppobj@%s-%d%d%d' % (be, *sh), crash_prop='C17'))
@@ -406,7 +408,7 @@ def check_C16(tier, seed):
                      'races are decided at the granularity of clang -O1 loads/stores of the C sources (a race is a source-level property), not of the shipped -O3 binary',
                      'stack accesses are private to their thread; TLS blocks are outside the executable\'s static storage, so a legitimate __thread variable does not alarm']
     n = 20000 if tier == 'quick' else 1000000
-    cfgs = [('c64', (4, 2, 4), n), ('asm', (4, 2, 4), n // 4)] if tier == 'quick' else \
+    cfgs = [('c64', (4, 2, 4), n), ('asm', (4, 2, 4), n // 4), ('c32', (3, 3, 3), n // 5), ('dxor', (4, 4, 4), n // 8)] if tier == 'quick' else \
            [('c64', (4, 2, 4), n), ('asm', (4, 2, 4), n // 4), ('c32', (3, 3, 3), n // 4), ('dxor', (4, 4, 4), n // 8), ('gen', (2, 1, 2), n // 8)]
     for be, sh, k in cfgs:
         exe = world_exe('threads', be, sh, 'trace')
@@ -428,12 +430,12 @@ def check_C13(tier, seed):
                      'after every free / clear() / destructor the raw bytes of the object must be identical in the two executions',
                      'C++ objects are placement-constructed in harness-owned storage so that their bytes stay readable after the destructor',
                      'constant residue (e.g. a vtable pointer, zeroes, 0xD7 dirt that was never written) is allowed: only dependence on secrets is flagged']
-    backends = ['asm', 'c32'] if tier == 'quick' else ['asm', 'c64', 'c32', 'dxor', 'gen']
+    backends = ['asm', 'c32', 'c64', 'dxor', 'gen']
     scale = 1 if tier == 'quick' else 12
     for bi, be in enumerate(backends):
         for world, n in TWIN_WORLDS:
             exe = world_exe(world, be, (4, 2, 4), 'rel')
-            k = n * scale // (1 if bi == 0 else 4)
+            k = n * scale // (1 if bi == 0 else 4 if tier == 'thorough' else 6)
             o.add(D.run_batch(exe, k, tier, seed, env={'ASIM_TWIN': '1'}, label='%s@%s-rel-twin' % (world, be), crash_prop='C12'))
     o.extra['distinct_states_measure'] = 'union of the state tuples of the reused worlds (object type x operation x phase)'
     o.extra['objects_covered'] = ['ascon_state_t', 'incremental AEAD x3', 'hash/hasha', 'xof/xofa (plain, fixed, custom)', 'prf', 'hmac/hmaca', 'kmac/kmaca', 'kdf/kdfa',
